@@ -9,6 +9,7 @@ import (
 	"os/exec"
 	"path/filepath"
 	"reflect"
+	"runtime"
 	"sync"
 	"testing"
 
@@ -21,7 +22,7 @@ import (
 )
 
 var specC07 = report.Spec{Property: "C07", Check: "C07",
-	Rule: "determinism: arbitrary polygons (as C05) and valid polygons with 0-3 holes (as C01) x grids x 1-4 ids given in random order x flags. Oracle (metamorphic): (a) three in-process repetitions return deeply equal maps, and a digest of the output of up to 3000 multi-level/multi-ring cases per run is recomputed by a second process (Go randomises map iteration per range statement and per process) and must be equal; " +
+	Rule: "determinism: arbitrary polygons (as C05), valid polygons with 0-3 holes (as C01) and, 1 case in 150 (thorough: 60), a valid star shaped polygon of 520-2600 (thorough: 6000) vertices several hundred pixels wide x grids x 1-4 ids given in random order x flags. Oracle (metamorphic): (a) three in-process repetitions (GOMAXPROCS as started, 1 and 8) return deeply equal maps, what a call returned does not change while another (shifted) polygon is snapped afterwards, and a digest of the output of up to 3000 multi-level/multi-ring cases per run is recomputed by a second process (Go randomises map iteration per range statement and per process) and must be equal; " +
 		"(b) valid polygons: for every non-empty subset of rings given in the opposite direction the output is deeply equal; (c) valid polygons: toggling ReverseWindingOrder yields the same tile matrices, polygons and rings in the same positions, each ring with >= 3 vertices being the reverse (as a cyclic sequence) of its counterpart, 1-2 vertex rings equal as sets. " +
 		"Non-trivial: >= 2 ids, or >= 2 rings, or the result has more polygons/rings than the input (a split). Distinct by case content.",
 	Assumptions: []string{"the second process is the same test binary started by the check itself with the recorded cases"}}
@@ -31,11 +32,43 @@ type C07Case struct {
 	Valid bool `json:"valid"`
 }
 
+// bigStarCase draws a valid star shaped polygon with hundreds to thousands of vertices (sizes that small generators never reach).
+func bigStarCase(t *rapid.T) SnapCase {
+	c := SnapCase{Grid: rapid.SampledFrom([]gen.GridSpec{gen.RD, gen.RD, gen.WebMercator}).Draw(t, "bigGrid"), Q: 4, Shape: "big-star"}
+	g := c.Grid.MustBuild()
+	c.IDs = gen.IDs(t, g, 3, min(maxAddressableID(g), 16))
+	c.Flags = gen.DrawFlags(t)
+	c.Flags.Ignore = false
+	ring, _ := gen.BigStar(t, rapid.IntRange(520, report.Scale(2600, 6000)).Draw(t, "bigN"))
+	if poly, anchor, ok := placeShape(t, g, c.IDs, [][]P{ring}, 4); ok {
+		c.Poly, c.Anchor = poly, anchor
+	}
+	return c
+}
+
 func genC07(t *rapid.T) C07Case {
+	if rapid.IntRange(0, report.Scale(150, 60)).Draw(t, "big") == 37 { // (rapid favours small values: pick one from the middle)
+		return C07Case{SnapCase: bigStarCase(t), Valid: true}
+	}
 	if rapid.Bool().Draw(t, "validPolygon") {
 		return C07Case{SnapCase: drawValidCase(t, validOpts{maxHoles: 3, collapseBias: rapid.Bool().Draw(t, "bias")}, gen.AnyGrid, 4), Valid: true}
 	}
 	return C07Case{SnapCase: drawArbCase(t, gen.AnyGridWide, 4, 40)}
+}
+
+func deepCopyOut(out map[int][]geom.Polygon) map[int][]geom.Polygon {
+	cp := make(map[int][]geom.Polygon, len(out))
+	for id, polys := range out {
+		ps := make([]geom.Polygon, len(polys))
+		for i, pg := range polys {
+			ps[i] = clonePoly(pg)
+			if pg == nil {
+				ps[i] = nil
+			}
+		}
+		cp[id] = ps
+	}
+	return cp
 }
 
 func digest(out map[int][]geom.Polygon) uint64 {
@@ -98,10 +131,35 @@ func oracleC07(c C07Case) (o report.Outcome) {
 		o.Label("snapping panicked (decided by C06)")
 		return o
 	}
-	for rep := 0; rep < 2; rep++ {
+	// repetitions, under different numbers of usable CPUs (the result may not depend on the environment it runs in)
+	for rep, procs := range []int{1, 8} {
+		old := runtime.GOMAXPROCS(procs)
 		again := snapSafe(c.SnapCase)
+		runtime.GOMAXPROCS(old)
 		if again.Panic != nil || !reflect.DeepEqual(first.Out, again.Out) {
-			o.Failf([]string{"nondeterministic"}, "repetition %d returned different geometry: first %v, then %v (panic %v)", rep+2, first.Out, again.Out, again.Panic)
+			o.Failf([]string{"nondeterministic"}, "repetition %d (GOMAXPROCS=%d) returned different geometry: first %.600s, then %.600s (panic %v)", rep+2, procs, fmt.Sprint(first.Out), fmt.Sprint(again.Out), again.Panic)
+			return o
+		}
+	}
+	if c.Shape == "big-star" {
+		o.Label("big ring (>= 520 vertices)")
+	}
+	// what was returned belongs to the caller: it must not change when another polygon is snapped afterwards
+	if len(c.Poly) > 0 && len(c.Poly[0]) > 0 {
+		saved := deepCopyOut(first.Out)
+		px := float64(a.g.PixelSpan(a.deepest, a.deepest)) / 1e10
+		moved := make([][][2]float64, len(c.Poly))
+		for i, r := range c.Poly {
+			moved[i] = make([][2]float64, len(r))
+			for j, v := range r {
+				moved[i][j] = [2]float64{v[0] + 3*px, v[1] + 2*px}
+			}
+		}
+		cfg := c.config()
+		cfg.IgnoreOutsideGrid = true
+		_ = snapWith(c.SnapCase, moved, c.IDs, cfg)
+		if !reflect.DeepEqual(saved, first.Out) {
+			o.Failf([]string{"aliasing"}, "the geometry returned by one call changed while another polygon was snapped (shared buffers): was %.500s, is now %.500s", fmt.Sprint(saved), fmt.Sprint(first.Out))
 			return o
 		}
 	}
